@@ -405,6 +405,15 @@ def fam_heads(rng, tier):
             spec2 = {"status": 101, "upgrade": " websocket", "connection": " Upgrade", "accept": "right", "extra": [pad]}
             n += 1
             out.append({"tid": "hd%d" % n, "chain": [spec2], "limit": None, "offered": None, "api": "connect", "timeout": 2})
+    # a redirect whose Location cannot be followed (malformed, foreign scheme, empty), also on an object that is still connected
+    for loc in ("http://x.test/", "nonsense", "ws://", "", "ws://[::1/x", "//h/p"):
+        for st in (301, 302, 307):
+            for prior in (None, "open", "closed"):
+                n += 1
+                sc = {"tid": "hd%d" % n, "chain": [{"status": st, "location": loc}, dict(OKHEAD)], "limit": None, "offered": None, "api": "connect", "timeout": 2}
+                if prior:
+                    sc["prior"] = prior
+                out.append(sc)
     # the same decisions on an object that has been connected before (closed in between, or still open): a failing
     # connect() leaves it unconnected
     k = 0
@@ -503,7 +512,7 @@ def fam_garbage_heads(rng, tier):
             add(spec={"status": st, "first": [fl], "upgrade": " websocket", "connection": " Upgrade", "accept": "right",
                       "location": "ws://x.test/" if st == 302 else None})
     for ck in ("a,b=c; domain=x", "a=b; domain=x.test", "=x; domain=y", "a b=c; Domain=x", "\"=1; domain=x", "a=b; domain=", "a=b; expires=never; domain=x",
-               "[]=1; domain=x", "a;b;c", ";", "a=b; domain=x; max-age=zz", "\xe9=1; domain=x", "k\x7f=v; domain=x", "a=b, c=d; domain=x; secure; httponly=1"):
+               "[]=1; domain=x", "a;b;c", ";", "a=b; domain=x; max-age=zz", "a=b; domain=never-seen.test; max-age=0", "a=b; domain=x; Max-Age=-1", "a=; domain=x; max-age=0; expires=Thu, 01 Jan 1970 00:00:00 GMT", "\xe9=1; domain=x", "k\x7f=v; domain=x", "a=b, c=d; domain=x; secure; httponly=1"):
         for st in (101, 302, 404):
             for twice in (False, True):
                 add(spec={"status": st, "upgrade": " websocket", "connection": " Upgrade", "accept": "right",
@@ -527,6 +536,12 @@ def fam_garbage_heads(rng, tier):
                     "ws://h:notaport/", "ws://h:99999/", "ws://:80/", "ws://h:-1/"):
             add(spec={"status": st, "location": loc.encode("utf-8").decode("latin-1")})
         add(spec={"status": st}, limit=0)
+    # the failing cases once more on an object that is still connected from an earlier call: it must end unconnected
+    for sc in list(out):
+        first = sc["chain"][0]
+        if sc["api"] == "connect" and "raw" not in first and (first.get("status") in (301, 302, 307) or first.get("first") or "Set-Cookie" in str(first.get("extra"))):
+            n += 1
+            out.append(dict(sc, tid="gh%d" % n, prior="open"))
     for _ in range(400 if tier == "quick" else 20000):
         raw = bytearray(build_head(dict(OKHEAD, extra=["Set-Cookie: a=b; Domain=x.test"]), b"k" * 24, None))
         m = rng.random()
